@@ -8,6 +8,7 @@ LEVEL = "other"
 
 def run(chk, tier):
     gio.check_write_discipline(chk)
+    gio.check_error_codes(chk)
     gio.check_who_touches_disk(chk)
     gio.check_determinism(chk)
     caught = ghaz.check_main(chk)
@@ -16,7 +17,8 @@ def run(chk, tier):
         explanation=("Error discipline in fs_provider as must-check rules on the AST: write_file tests the stream after "
                      "opening, flushes/closes after the last write and tests the state again with a throwing failure arm "
                      "(ENOSPC/EIO/short writes surface at close); the file is opened for truncating output; "
-                     "create_directories tests its error_code; read_file returns data only under a successful read test. "
+                     "create_directories tests its error_code; every std::error_code handed to a call is tested, with a failing arm that "
+                     "raises, before it is handed to the next call (G-IO.ec); read_file returns data only under a successful read test. "
                      "Who-may-touch-disk: no file API call outside fs_provider (resolved callees). main returns 0 only "
                      "past compile(), every handler returns non-zero and std::exception is covered. Determinism: no clock / "
                      "random / pid / environment API and no iteration over a pointer-keyed container anywhere in the TU. "
